@@ -307,6 +307,11 @@ fn float_hard_cases(rng: &mut Rng, n: usize) -> Vec<String> {
     .into_iter()
     .map(String::from)
     .collect();
+    for e in ["127", "128", "-128", "-129", "255", "256", "32767", "-32768", "32768", "-32769", "65535", "65536", "2147483647", "-2147483648", "2147483648", "9223372036854775807", "-9223372036854775808"] {
+        v.push(format!("1E{}", e));
+        v.push(format!("-2.5e{}", e));
+        v.push(format!("0E{}", e));
+    }
     // midpoints between neighbouring f32 values, +- one unit in a late digit: this is
     // what exposes double rounding through f64
     for _ in 0..n {
@@ -545,7 +550,7 @@ fn render(header: &str, lits: &[LitCase]) -> Vec<u8> {
 }
 
 /// Literal pool: everything interesting for every type.
-fn pool(rng: &mut Rng, floats: usize) -> Vec<LitCase> {
+pub fn pool(rng: &mut Rng, floats: usize) -> Vec<LitCase> {
     let mut v: Vec<LitCase> = Vec::new();
     for p in int_points() {
         v.push(dec(format!("{}", p)));
